@@ -569,9 +569,6 @@ class HierOps:
             if oe is None:
                 return 'skip'
             o = oe.obj
-            ka, kb = self._level_kinds(e), self._level_kinds(oe)
-            if ka != kb and any(k == 'date' or k.startswith('dt:') for k in ka + kb):
-                return 'skip'  # would put datetime64 objects into object-dtype levels (loose date matching; scoped out)
 
         def mk():
             if how == 'copy':
